@@ -1,4 +1,6 @@
 // C14 — varint coding: canonical, lossless, bounded; buffer and source decoders agree.
+#include "shims/pp_probes.h"
+#include "shims/varint_static.h"
 #include "support/vp.hpp"
 #include <memory>
 #include "support/ufw.hpp"
@@ -115,6 +117,14 @@ static bool check_value(int k, uint64_t raw) {
     got = ~raw;
     rc = dec_src(k, &src, &got);
     if (rc != (int)want.size() || got != raw || os.pos != want.size()) ok = F("roundtrip-source", vp::fmt("source decode rc=%d value=%llx consumed=%zu", rc, (unsigned long long)got, os.pos));
+    // the same through a C caller whose channel state lives in file-scope statics (shims/varint_static.c)
+    {
+        unsigned char out16[16]; size_t outlen = 99; uint64_t g2 = ~raw; size_t consumed = 99;
+        int r1 = vp_vstatic_encode(k, raw, out16, &outlen);
+        if (r1 != (int)want.size() || outlen != want.size() || memcmp(out16, want.data(), want.size()) != 0) ok = F("static-caller:to-sink", vp::fmt("a C caller with file-static channel state: to_sink returned %d, its driver holds %zu octets", r1, outlen));
+        int r2 = vp_vstatic_decode(k, ex, want.size(), &g2, &consumed);
+        if (r2 != (int)want.size() || g2 != raw || consumed != want.size()) ok = F("static-caller:from-source", vp::fmt("a C caller with file-static channel state: from_source rc=%d value=%llx, its driver saw %zu octets consumed", r2, (unsigned long long)g2, consumed));
+    }
     if (!FAST) { free(mem); free(ex); }
     return ok;
 }
@@ -146,6 +156,10 @@ static bool check_string(int k, const uint8_t *s, size_t n, size_t prefixarg) {
     OctSrc os{s, n, 0}; Source src; octet_source_init(&src, octsrc_cb, &os);
     int rs = dec_src(k, &src, &vs);
     if (total == 0) rb = rs < 0 ? -1 : 0;   // a zero-size ByteBuffer cannot be constructed; nothing to compare
+    {   // and through the C caller with file-static channel state: same verdict, value and consumed count as the harness's own source
+        uint64_t v3 = 0; size_t c3 = 99; int r3 = vp_vstatic_decode(k, s, n, &v3, &c3);
+        if (r3 != rs || c3 != os.pos || (rs > 0 && v3 != vs)) ok = F("static-caller:disagrees", vp::fmt("a C caller with file-static channel state gets rc=%d value=%llx consumed=%zu; a context-pointer driver gets rc=%d value=%llx consumed=%zu", r3, (unsigned long long)v3, c3, rs, (unsigned long long)vs, os.pos));
+    }
     switch (r.verdict) {
     case ref::VI_OK:
         if (rb != (int)r.count) ok = F("buffer-count", vp::fmt("buffer decoder rc=%d, terminator after %zu octets", rb, r.count));
@@ -207,6 +221,7 @@ static std::vector<uint64_t> boundary_values() {
 
 static void run() {
     auto &a = vp::args();
+    if (a.shard == 0) vp::pp_phase(vp_pp_varint, "varint");
     vp::CaseScope scope(ser_cur);
     vp::Rng rng(a.seed * 104729 + a.shard);
     if (!FAST) {
@@ -260,6 +275,7 @@ static void run() {
     }
 }
 static bool replay(const std::string &text) {
+    if (text.rfind("pp ", 0) == 0) { vp::pp_phase(vp_pp_varint, "varint"); return vp::stats().failures.empty(); }
     auto w = vp::split(vp::lines(text).at(0));
     if (w.size() < 3) return false;
     int k = -1; for (int i = 0; i < 4; i++) if (w[1] == kname[i]) k = i;
